@@ -64,6 +64,31 @@ def host_class(tok):
 
 M, S, A, P, ST, PR, HOST = b":method", b":scheme", b":authority", b":path", b":status", b":protocol", b"host"
 
+KIND_LETTER = {M: "m", S: "s", A: "a", P: "p", PR: "r", ST: "t"}
+
+
+def kind_class(op, tok):
+    """Other-kind class of a request's / response's field list (D-12f): `/K` followed by one letter per pseudo-header
+    field name that is defined for the OTHER kind of message and occurs in the section — `t` (:status) in a request;
+    `m` (:method), `s` (:scheme), `a` (:authority), `p` (:path), `r` (:protocol) in a response —, and `-` when the
+    section lacks what its own kind needs (no :method / no :authority and Host in a request, no :status in a
+    response). Empty when there is no such field."""
+    try:
+        fs = parse_ftok(tok)
+    except ValueError:
+        return ""
+    names = set(n for n, _, _ in fs)
+    if op in ("req", "srv"):
+        other = [ST]
+        own = M in names and (A in names or HOST in names)
+    else:
+        other = [M, S, A, P, PR]
+        own = ST in names
+    hit = "".join(KIND_LETTER[n] for n in other if n in names)
+    if not hit:
+        return ""
+    return "/K" + hit + ("" if own else "-")
+
 VALID_NAMES = [b"a", b"x-custom", b"accept", b"content-type", b"set-cookie", b"te", b"cookie", b"x_y.z", b"0", b"!#$%&'*+-.^_`|~",
                b"a" * 64, b"a" * 65, b"content-length", b"host"]
 BAD_NAMES = [b"", b"A", b"Content-Type", b"hosT", b"a b", b" a", b"a ", b"a\x00", b"a\r\n", b"a:b", b"a(b", b"a)b", b"a,b", b"a/b", b"a;b",
@@ -110,7 +135,7 @@ class C12(Prop):
                   "Header functions (function level), the real poll_recv_trailers over an in-memory stream, and the real "
                   "server accept+resolve_request / client send_request+recv_response over a private 160-line in-memory "
                   "transport, against the model on identical case lines; tools/extract.py regenerates the Protocol table, the "
-                  "error codes used at the three call sites and five source decisions the model switches on; http crate: four "
+                  "error codes used at the three call sites and six source decisions the model switches on; http crate: four "
                   "validators modelled concretely (all 256 single-byte names/values/methods and digit triples enumerated against "
                   "the real crate), Scheme/Authority/PathAndQuery/Uri::builder abstract with four listed laws, instantiated per "
                   "case by the real crate's verdicts carried on the case line and checked against the laws")
@@ -118,7 +143,10 @@ class C12(Prop):
             "a 65-byte name) and values, all 256 single-byte methods, status digit triples, scheme/authority/path/protocol "
             "alphabets, presence/absence/duplication/contradiction of the 7 special fields (3^7 combinations + orderings), "
             "CONNECT variants, host/authority contradictions, Host multiplicity (0-3 Host values, equal / one different at each position / "
-            "all different from :authority, x 0/1/2 :authority fields x Host before/after/around :authority), field counts around and far beyond 24576 (no limit), 24576 / 24577 distinct names (the HeaderMap limit), seeded random lists; every second "
+            "all different from :authority, x 0/1/2 :authority fields x Host before/after/around :authority), pseudo-header fields of the other kind of "
+            "message (:status in requests at every position x 5 request shapes x 4 status values; all 31 subsets of :method/:scheme/:authority/"
+            ":path/:protocol in responses before/after/around :status and without it; valid, repeated, unparseable values; each at the function "
+            "level and through the real server/client call site), field counts around and far beyond 24576 (no limit), 24576 / 24577 distinct names (the HeaderMap limit), seeded random lists; every second "
             "request/response case (thorough: every one) again through the real server/client call site; sent side: methods x "
             "URI shapes x protocol x maps; non-trivial = implementation result is ok/reject/refused/sent "
             "(not bad-op/bad-verdicts/unbuildable/panic/law-violated)")
@@ -134,8 +162,9 @@ class C12(Prop):
                    "sequences of >= 512 slots) is not modelled; checked by boundary cases on the real crate",
                    "caller-built HeaderMap names satisfy HeaderName's invariant (no ':'), values HeaderValue's",
                    "R-12: duplicated pseudo-header fields (which of several different values counts), pseudo-header fields after "
-                   "regular ones, request pseudo-fields in responses and vice versa, missing :scheme/:path are not demanded by the "
-                   "property text; R-12b: every Host value must be the :authority value when there is one, and without :authority "
+                   "regular ones, missing :scheme/:path are not demanded by the "
+                   "property text; demanded (D-12f): 'only defined pseudo-header fields' = defined for this kind of message "
+                   "(RFC 9114 4.3): no :status in a request, no :method/:scheme/:authority/:path/:protocol in a response; R-12b: every Host value must be the :authority value when there is one, and without :authority "
                    "the Host values must be one value (several identical Host fields are not refused)"]
 
     # ------------------------------------------------------------------ verdict pre-pass
@@ -308,6 +337,51 @@ class C12(Prop):
         for hv in ([b"a.com", b"b.com"], [b"a.com", b"a.com", b""]):
             recv("resp", RESP_BASE + [(HOST, v) for v in hv])
             recv("trl", [(HOST, v) for v in hv])
+
+        # pseudo-header fields of the other kind of message (D-12f): `:status` in a request; every non-empty subset of
+        # `:method`, `:scheme`, `:authority`, `:path`, `:protocol` in a response; before, after and between the fields of
+        # the right kind, with a regular field around, with valid, repeated and unparseable values, with and without
+        # what the section's own kind needs; each also through the real server / client call site (`srv` / `cli`)
+        def both(op, fields):
+            tok = ftok(fields)
+            raw.append((op, tok))
+            raw.append(({"req": "srv", "resp": "cli"}[op], tok))
+
+        for st in (b"200", b"100", b"404", b"999"):
+            for base in (REQ_MIN, REQ_BASE, [(M, b"GET"), (HOST, b"a.com")], [(M, b"CONNECT"), (A, b"a.com:443")],
+                         [(M, b"CONNECT"), (PR, b"webtransport"), (S, b"https"), (A, b"a.com"), (P, b"/")]):
+                for i in range(len(base) + 1):
+                    both("req", base[:i] + [(ST, st)] + base[i:])
+                both("req", base + [(b"x", b"1"), (ST, st)])
+                both("req", base + [(ST, st), (ST, st)])
+        for extra in ([(ST, b"200")], [(ST, b"200"), (ST, b"404")], [(ST, b"099")], [(ST, b"")], [(ST, b"2x0")]):
+            both("req", REQ_MIN + extra)
+            both("req", extra + REQ_BASE + [(b"x", b"1")])
+            both("req", extra)                                  # nothing but the foreign field
+            both("req", [(M, b"GET")] + extra)                  # … and no authority
+            both("req", [(A, b"a.com")] + extra)                # … and no :method
+        req_fields = [(M, b"GET"), (S, b"https"), (A, b"a.com"), (P, b"/"), (PR, b"webtransport")]
+        for code in range(1, 2 ** 5):
+            sub = [f for i, f in enumerate(req_fields) if code >> i & 1]
+            both("resp", RESP_BASE + sub)
+            both("resp", sub + RESP_BASE)
+            both("resp", sub)                                   # no :status at all
+            if len(sub) >= 2:
+                both("resp", sub[:1] + RESP_BASE + [(b"x", b"1")] + sub[1:])
+        for n, good, bad in ((M, b"POST", b"G T"), (S, b"http", b"ht tp"), (A, b"b.com:8443", b"a b"), (P, b"/a?b=c", b"/a b"),
+                             (PR, b"websocket", b"h2c")):
+            for st in (b"200", b"404"):
+                both("resp", [(ST, st), (n, good)])
+                both("resp", [(n, good), (ST, st), (b"x", b"1")])
+                both("resp", [(ST, st), (b"x", b"1"), (n, good)])
+                both("resp", [(ST, st), (n, good), (n, good)])
+            both("resp", RESP_BASE + [(n, bad)])                # refused by `try_from` already (unparseable value)
+            both("resp", RESP_BASE + [(n, b"")])
+        # a complete request as a response, a complete response as a request
+        both("resp", REQ_BASE)
+        both("resp", REQ_BASE + RESP_BASE)
+        both("req", RESP_BASE)
+        both("req", RESP_BASE + REQ_BASE)
 
         # presence / absence / duplication (with a contradicting second value) of the seven special fields
         special = [(M, b"GET", b"POST"), (S, b"https", b"http"), (A, b"a.com", b"b.com"), (P, b"/", b"/x"),
@@ -502,6 +576,8 @@ class C12(Prop):
         k = "%s/%s" % (w[1], k)
         if w[1] in ("req", "srv"):
             k += host_class(w[2])
+        if w[1] in ("req", "srv", "resp", "cli"):
+            k += kind_class(w[1], w[2])
         return k
 
     def trivial(self, line, impl):
